@@ -76,6 +76,14 @@ def seeded_table():
                               " (no-failing-input-found)")
         else:
             res = "MISSED" if m.get("check_exit") == 0 else "exit %s" % m.get("check_exit")
+        rg = m.get("regression")
+        if rg:
+            if rg.get("status") == "ran":
+                res += "; re-run on HEAD %s: %s" % (rg.get("head"), "caught" + (
+                    " with input" if rg.get("caught_with_concrete_input") else " (no input)")
+                    if rg.get("caught") else "NOT caught")
+            else:
+                res += "; re-run on HEAD %s: %s" % (rg.get("head"), rg.get("status"))
         if m.get("after_strengthening"):
             a = m["after_strengthening"]
             if isinstance(a, dict):
